@@ -33,6 +33,11 @@ def run(check: Check) -> None:
             check.obligation("required_variables.generated/ground", "refuted" if found else "ground")
             for tag, msg in found:
                 check.violation(f"required::{tag}::generated", msg, {"kind": "c17_generated", "formula": f, "used": sorted(used)})
+        found = c17_native.check_live_spec()
+        check.case("live spec: read, edit the formula in place, read again")
+        check.obligation("required_variables.live_spec/ground", "refuted" if found else "ground")
+        for tag, msg in found:
+            check.violation(f"required::{tag}", msg, {"kind": "c17_live_spec"})
         found = c17_native.check_sources()
         check.obligation("sources/ground", "refuted" if found else "ground")
         for tag, msg in found:
